@@ -55,6 +55,49 @@ func runLift3x(a *args) {
 			var ge, gb, gt float64
 			p, msg := safely(func() { ge = o.Score("environmental"); gb = o.Score("base"); gt = o.Score("temporal") })
 			switch prop {
+			case "C12":
+				// one severity step of ANY written metric of the realisation - Modified metrics included, a base metric
+				// also when it is overridden - must not lower a score (v3.1: all three; v3.0: base and temporal)
+				if p {
+					return
+				}
+				methods := []string{"base", "temporal", "environmental"}
+				if vn == "3.0" {
+					methods = methods[:2]
+				}
+				base := map[string]float64{"base": gb, "temporal": gt, "environmental": ge}
+				for _, m := range metrics {
+					ord := tb.sev[m]
+					for bm, mm := range tb.modOf {
+						if mm == m {
+							ord = tb.sev[bm]
+						}
+					}
+					cur, _ := o.Get(m)
+					pos := -1
+					for i, x := range ord {
+						if x == cur {
+							pos = i
+						}
+					}
+					if pos < 0 || pos+1 >= len(ord) {
+						continue // undefined (X) or already the most severe value
+					}
+					o2 := o.Clone()
+					mustSet(o2, m, ord[pos+1])
+					for _, meth := range methods {
+						var g2 float64
+						if p2, _ := safely(func() { g2 = o2.Score(meth) }); p2 {
+							continue
+						}
+						col.count("severity steps on realisations (Modified metrics included)", 1)
+						if g2 < base[meth] {
+							col.violate(Violation{Property: prop, Kind: "more severe value lowers the score", Version: vn,
+								Input:    map[string]interface{}{"vector": key, "metric": m, "from": cur, "to": ord[pos+1], "more_severe_vector": o2.Vector(), "method": meth},
+								Expected: ">= " + fmtF(base[meth]), Observed: fmtF(g2), Extra: map[string]interface{}{"family": what}})
+						}
+					}
+				}
 			case "C09":
 				col.count("realisations scored without panic", 1)
 				if p {
